@@ -234,7 +234,7 @@ def part2(ctx, rep, rng, n_cases, exhaustive):
             refs.append(dict(base, schedule=[[0, c] for c in ref_chunks]))
     if not cases:
         return
-    ans = ctx.driver.query([serverlib.model_query(**c) for c in cases])
+    ans = serverlib.ask_model(ctx, cases)
     for c, r, a in zip(cases, refs, ans):
         check_interleave(rep, dict(c, ref_schedule=r['schedule']), a)
 
@@ -369,7 +369,7 @@ def replay(ctx, payload):
             return 'two front-ends given the same datastore and the same request bytes differ'
         return None
     if c.get('kind') == 'interleave' and 'ref_schedule' in c:
-        a = ctx.driver.query([serverlib.model_query(**c)])[0]
+        a = serverlib.ask_model(ctx, [c])[0]
         check_interleave(rep, c, a)
         if rep.violations:
             return rep.violations[0]['what']
